@@ -425,6 +425,9 @@ HCtxDone(h) ==
 -----------------------------------------------------------------------------
 (* The server writes an envelope (C06 server half, C03 status, C04 md)      *)
 
+\* what HRet reports as the reply of a unary handler that returned (a value the codec refuses, nil)
+Unenc == "@unenc"
+
 StatusMatches(env, h) ==
   LET x == hnds[h] IN
   G("status",
@@ -470,7 +473,7 @@ ServerWrite(env) ==
         /\ env.r = 0
         /\ env.h = 1 /\ KindOfMeth(env.meth) = "unary"
         /\ LET cand == {h \in DOMAIN hnds : hnds[h].kind = "unary" /\ hnds[h].id = env.id /\ hnds[h].ret /\ ~hnds[h].trW}
-               fits(h) == hnds[h].rc = OK => env.pay = hnds[h].rpay
+               fits(h) == (hnds[h].rc = OK /\ hnds[h].rpay # Unenc) => env.pay = hnds[h].rpay
            IN
            /\ G("wire", cand # {})
            /\ cand # {} =>
@@ -479,8 +482,12 @@ ServerWrite(env) ==
                 /\ G("wire", RespHdrConst(env, x))
                 /\ G("wire", <<env.meth, env.dst, env.src, env.ns>> \in Sin(env.id).hdrs)    \* the return route (C16)
                 /\ G("wire", env.t = 1)
-                /\ StatusMatches(env, h)
-                /\ x.rc = OK => G("wire", env.b = 1) /\ (env.b = 1 => G("pay", env.pay = x.rpay))
+                /\ IF x.rc = OK /\ x.rpay = Unenc
+                     \* a reply the codec refuses is not on the wire, whatever status the server makes of it (goat: none);
+                     \* the caller then cannot see a success (URet: ok only with a body)
+                     THEN G("pay", env.b = 0)
+                     ELSE /\ StatusMatches(env, h)
+                          /\ x.rc = OK => G("wire", env.b = 1) /\ (env.b = 1 => G("pay", env.pay = x.rpay))
                 /\ G("md", MdF(env.md) = x.hdr /\ MdF(env.tmd) = x.trl)
                 /\ hnds' = [hnds EXCEPT ![h].trW = TRUE]
            /\ cand = {} => UNCHANGED hnds
@@ -572,6 +579,7 @@ CUpd(c, rec) == /\ calls' = [calls EXCEPT ![c] = rec]
 HandlerOkHealthy(c) ==
   /\ ~SrvDown /\ ~CliDown
   /\ \E h \in DOMAIN hnds : hnds[h].c = c /\ c # 0 /\ hnds[h].ret /\ hnds[h].rc = OK /\ ~HCause(h)
+                            /\ hnds[h].rpay # "@unenc"     \* (a reply the codec refused never left the server)
 
 URet(c, res, code, msg, ndet, pay) ==
   /\ c \in DOMAIN calls /\ calls[c].kind = "unary" /\ ~calls[c].uret
